@@ -3,7 +3,7 @@ NEXT Next
 CONSTANTS
   Solver = "sparse"
   MCN = 2
-  MCLats = {"chain2", "chain3"}
+  MCLats = {"chain2"}
   MCFam = "idgenkill"
   MCParN = 0
   UseJson = TRUE
